@@ -630,7 +630,27 @@ def gen_id_ellipsis(g):
     others = g.pool(rng.randint(0, 2), max_elems=max(1, g.b.max_elems // max(tot, 1) // 2))
     base = rng.choice([nm for nm in ["s", "t"]])
     anon = rng.random() < 0.3
-    form = rng.choice(["plain", "plain", "grp-out", "grp-in", "pair"])
+    form = rng.choice(["plain", "plain", "grp-out", "grp-in", "pair", "pair-equal-scalars"])
+    if form == "pair-equal-scalars":
+        # '(s ds)... (c d) -> s... ds... c d' with the SAME scalar given for ds (an axis under the ellipsis: one
+        # number stands for every repetition) and for d (an ordinary axis)
+        n = rng.choice([1, 2, 2, 3])
+        k = rng.choice([2, 3])
+        sizes = [rng.choice([1, 2]) for _ in range(n)]
+        c = Ax("c", rng.choice([1, 2, 3]))
+        d = Ax("d", k)
+        reps2 = tuple(((base, s_), ("d" + base, k)) for s_ in sizes)
+        ell_in = Ell(Grp((Ax(base, 0), Ax("d" + base, 0))), n, reps2)
+        e1 = Ell(Ax(base, 0), n, tuple(((base, s_),) for s_ in sizes))
+        e2 = Ell(Ax("d" + base, 0), n, tuple((("d" + base, k),) for _ in sizes))
+        in_items = [ell_in, Grp((c, d))]
+        if rng.random() < 0.5:
+            in_items.reverse()
+        out_items = [e1, e2, c, d]
+        rng.shuffle(out_items)
+        e_in, e_out = tuple(in_items), tuple(out_items)
+        kw = {"d" + base: k, "d": k}
+        return _case("id", "id", show_op([e_in], [e_out]), [e_in], [e_out], kw, tags={"ellipsis-pair", "equal-scalars-at-different-depths"} | tags_of([e_in, e_out]))
     reps = tuple(((base, s),) for s in sizes)
     ell = Ell(Ax(base, 0), n, reps, anon=anon)
     tags = set()
@@ -725,8 +745,10 @@ def gen_reduce(g, op=None):
     cap = 16 if op in ("var", "std") else 48
     pool = g.pool(n, max_elems=cap)
     k = rng.randint(1, n)
+    if rng.random() < 0.08:
+        k = 0  # a reduction over no axis at all: the identity for sum/max/..., but var/std -> 0, count_nonzero/any/all -> x != 0
     marked = rng.sample(pool, k)
-    if op in ("var", "std"):
+    if op in ("var", "std") and marked:
         # keep the polynomial identities small
         while True:
             tot = 1
@@ -1110,6 +1132,41 @@ def exhaustive(family):
                             e_out = tuple(perm)
                             kw = make_kwargs(random.Random(0), [e_in], [e_out], extra_prob=0.0)
                             cases.append(_case(op, "reduce", show_op([e_in], [e_out]), [e_in], [e_out], kw, tags={"exhaustive"} | tags_of([e_in, e_out])))
+    if family == "reduce-brackets":
+        # every bracket pattern over four axes; adjacent bracketed axes written jointly ('[a b]') or one by one
+        for sizes in [(2, 2, 2, 2), (2, 3, 2, 2)]:
+            axes_ = [Ax(n, s) for n, s in zip("abcd", sizes)]
+            for k in range(1, 5):
+                for marked in itertools.combinations(range(4), k):
+                    runs, cur = [], []
+                    for i in range(4):
+                        if i in marked:
+                            cur.append(i)
+                        elif cur:
+                            runs.append(cur)
+                            cur = []
+                    if cur:
+                        runs.append(cur)
+                    for joint in itertools.product([True, False], repeat=len(runs)):
+                        if any(j and len(r) == 1 for j, r in zip(joint, runs)):
+                            continue  # a single axis has only one way to be bracketed
+                        items, i = [], 0
+                        while i < 4:
+                            r = next((r for r in runs if r[0] == i), None)
+                            if r is None:
+                                items.append(axes_[i])
+                                i += 1
+                            elif joint[runs.index(r)]:
+                                items.append(Brk(tuple(axes_[j] for j in r)))
+                                i += len(r)
+                            else:
+                                items.extend(Brk((axes_[j],)) for j in r)
+                                i += len(r)
+                        e_in = tuple(items)
+                        rest = [axes_[i] for i in range(4) if i not in marked]
+                        for e_out in {tuple(rest), tuple(reversed(rest))}:
+                            cases.append(_case("sum", "reduce", show_op([e_in], [e_out]), [e_in], [e_out], {}, tags={"exhaustive", "bracket-pattern"} | tags_of([e_in, e_out])))
+        return cases
     return cases
 
 
